@@ -209,6 +209,8 @@ func (c *smtCtx) boxFn(sort string) (mk, un string) {
 		c.boxFns[s] = true
 		c.decls = append(c.decls, fmt.Sprintf("(declare-fun %s (Int %s) Iface)", mk, sort))
 		c.decls = append(c.decls, fmt.Sprintf("(declare-fun %s (Iface) %s)", un, sort))
+		c.decls = append(c.decls, fmt.Sprintf("(assert (forall ((t Int) (v %s)) (! (and (= (itag (%s t v)) t) (= (%s (%s t v)) v) (not (= (%s t v) inil))) :pattern ((%s t v)))))", sort, mk, un, mk, mk, mk))
+		c.decls = append(c.decls, fmt.Sprintf("(assert (forall ((i Iface)) (! (=> (not (= i inil)) (= (%s (itag i) (%s i)) i)) :pattern ((%s i)))))", mk, un, un))
 	}
 	return
 }
